@@ -186,27 +186,36 @@ impl<T: ServiceStateActions + Send> ServiceManager<T> {
                 let pid = self.service.pid().ok_or(Error::PidNotSet)?;
                 let name = self.service.name();
 
-                if self
+                match self
                     .service_control
                     .get_process_pid(&self.service.bin_path())
-                    .is_ok()
                 {
-                    if self.verbosity != VerbosityLevel::Minimal {
-                        println!("Attempting to stop {}...", name);
+                    Ok(_) => {
+                        if self.verbosity != VerbosityLevel::Minimal {
+                            println!("Attempting to stop {}...", name);
+                        }
+                        self.service_control
+                            .stop(&name, self.service.is_user_mode())?;
+                        if self.verbosity != VerbosityLevel::Minimal {
+                            println!(
+                                "{} Service {} with PID {} was stopped",
+                                "✓".green(),
+                                name,
+                                pid
+                            );
+                        }
                     }
-                    self.service_control
-                        .stop(&name, self.service.is_user_mode())?;
-                    if self.verbosity != VerbosityLevel::Minimal {
-                        println!(
-                            "{} Service {} with PID {} was stopped",
-                            "✓".green(),
-                            name,
-                            pid
-                        );
+                    Err(ServiceError::ServiceProcessNotFound(_)) => {
+                        debug!("Service {name} was already stopped");
+                        if self.verbosity != VerbosityLevel::Minimal {
+                            println!("{} Service {} was already stopped", "✓".green(), name);
+                        }
                     }
-                } else if self.verbosity != VerbosityLevel::Minimal {
-                    debug!("Service {name} was already stopped");
-                    println!("{} Service {} was already stopped", "✓".green(), name);
+                    Err(err) => {
+                        // the probe itself failed: that says nothing about the process
+                        error!("Failed to stop service, because its process could not be looked up: {err}");
+                        return Err(err.into());
+                    }
                 }
 
                 self.service.on_stop().await?;
@@ -229,27 +238,34 @@ impl<T: ServiceStateActions + Send> ServiceManager<T> {
 
     pub async fn remove(&mut self, keep_directories: bool) -> Result<()> {
         if let ServiceStatus::Running = self.service.status() {
-            if self
+            match self
                 .service_control
                 .get_process_pid(&self.service.bin_path())
-                .is_ok()
             {
-                error!(
-                    "Service {} is already running. Stop it before removing it",
-                    self.service.name()
-                );
-                return Err(Error::ServiceAlreadyRunning(vec![self.service.name()]));
-            } else {
-                // If the node wasn't actually running, we should give the user an opportunity to
-                // check why it may have failed before removing everything.
-                self.service.on_stop().await?;
-                error!(
-                "The service: {} was marked as running but it had actually stopped. You may want to check the logs for errors before removing it. To remove the service, run the command again.",
-                self.service.name()
-            );
-                return Err(Error::ServiceStatusMismatch {
-                    expected: ServiceStatus::Running,
-                });
+                Ok(_) => {
+                    error!(
+                        "Service {} is already running. Stop it before removing it",
+                        self.service.name()
+                    );
+                    return Err(Error::ServiceAlreadyRunning(vec![self.service.name()]));
+                }
+                Err(ServiceError::ServiceProcessNotFound(_)) => {
+                    // If the node wasn't actually running, we should give the user an opportunity to
+                    // check why it may have failed before removing everything.
+                    self.service.on_stop().await?;
+                    error!(
+                        "The service: {} was marked as running but it had actually stopped. You may want to check the logs for errors before removing it. To remove the service, run the command again.",
+                        self.service.name()
+                    );
+                    return Err(Error::ServiceStatusMismatch {
+                        expected: ServiceStatus::Running,
+                    });
+                }
+                Err(err) => {
+                    // the probe itself failed: that says nothing about the process
+                    error!("Failed to remove service, because its process could not be looked up: {err}");
+                    return Err(err.into());
+                }
             }
         }
 
@@ -585,7 +601,7 @@ pub async fn refresh_node_registry(
                     );
                     service.on_start(Some(pid), full_refresh).await?;
                 }
-                Err(_) => {
+                Err(ServiceError::ServiceProcessNotFound(_)) => {
                     match service.status() {
                         ServiceStatus::Added => {
                             // If the service is still at `Added` status, there hasn't been an attempt
@@ -609,6 +625,13 @@ pub async fn refresh_node_registry(
                             service.on_stop().await?;
                         }
                     }
+                }
+                Err(err) => {
+                    // the probe itself failed: the recorded status is kept, it is not evidence of a stop
+                    warn!(
+                        "Could not look up the process of {}: {err}",
+                        service.service_data.service_name
+                    );
                 }
             }
         }
